@@ -291,6 +291,29 @@ func runC17(c *fw.Ctx) {
 			}
 			c.Count("warm_cache_repairs", 1)
 		}
+		// a repaired child trie whose changes are merged into a parent at another version: the donor must still be unchanged
+		if len(removed) > 0 && si%4 == 1 && !c.Violated() {
+			pstore := util.NewMemoryNodeDB()
+			for i, n := range nodes {
+				if !removed[i] {
+					_ = pstore.PutNode(n.Key, n.Node)
+				}
+			}
+			P := lab.NewMPT(util.NewLevelNodeDB(util.NewMemoryNodeDB(), pstore, false), mv+3, root)
+			Cc := lab.NewMPT(util.NewLevelNodeDB(util.NewMemoryNodeDB(), P.GetNodeDB(), false), mv+3, root)
+			if err := Cc.MergeDB(donor, root, nil); err != nil {
+				fail("MergeDB on a child trie failed: %v", err)
+			} else {
+				extra := g.Pick(lab.SortedKeys(mdl)) + "0f"
+				if _, err := Cc.Insert(util.Path(extra), &lab.Val{B: []byte("after-repair")}); err == nil {
+					_ = P.MergeMPTChanges(Cc)
+				}
+				if memSnapshot(donor) != dsnap {
+					fail("the donor store changed after the repaired trie's changes were merged into its parent")
+				}
+				c.Count("repaired_child_merged_into_parent", 1)
+			}
+		}
 		c.Count("removal_sets", 1)
 		c.Count("removal:"+setKinds[si], 1)
 		if mv != int64(nver) || len(origins) > 1 {
@@ -325,7 +348,7 @@ func init() {
 		Rule: "each case builds a trie over 1..4 versions (so node origins differ) and then, for every single reachable non-root node (up to 24; exhaustive for small tries), 3 whole subtrees, 4 scattered subsets and the empty set, " +
 			"copies the trie into a store (memory / layered / persistent) without the removed nodes and a donor store with them. A trie opened at a version equal to or above the creating versions must: report HasMissingNodes iff the frontier is non-empty; " +
 			"GetAllMissingNodes == frontier (absent nodes reachable through present ones, computed by the harness); lookups through an absent node fail with ErrNodeNotFound, others return the model value, never-stored paths never return data; partial iteration yields only true pairs; " +
-			"after MergeDB(donor): content complete (also for a fresh trie on the repaired store), root unchanged, HasMissingNodes false, donor snapshot (key->encoding) byte-identical; for a third of the removal sets the repair is repeated through a trie whose cache is warm (it read the complete state before the nodes were deleted from its store) and judged by a fresh trie. non-trivial/distinct = (trie, removal set) pairs with a non-empty removal",
+			"after MergeDB(donor): content complete (also for a fresh trie on the repaired store), root unchanged, HasMissingNodes false, donor snapshot (key->encoding) byte-identical; for a third of the removal sets the repair is repeated through a trie whose cache is warm (it read the complete state before the nodes were deleted from its store) and judged by a fresh trie; for a quarter the repair runs in a child trie whose changes (plus one insert) are then merged into a parent trie of another version, after which the donor snapshot must still be identical. non-trivial/distinct = (trie, removal set) pairs with a non-empty removal",
 		Cases: func(tier string) int {
 			if tier == "thorough" {
 				return 120000
@@ -333,7 +356,7 @@ func init() {
 			return 4800
 		},
 		Run:    runC17,
-		Floors: map[string]int64{"tries": 3000, "removal_sets": 50000, "removal:single": 30000, "removal:subtree": 9000, "removal:scattered": 12000, "blocked_lookups": 50000, "repairs_with_foreign_origin": 20000, "tries_with_mixed_origins": 1000, "warm_cache_repairs": 10000},
+		Floors: map[string]int64{"tries": 3000, "removal_sets": 50000, "removal:single": 30000, "removal:subtree": 9000, "removal:scattered": 12000, "blocked_lookups": 50000, "repairs_with_foreign_origin": 20000, "tries_with_mixed_origins": 1000, "warm_cache_repairs": 10000, "repaired_child_merged_into_parent": 8000},
 		Assumptions: []string{
 			"the donor is a MemoryNodeDB (map iteration order = arbitrary repair order)",
 			"single-node removals are exhaustive up to 24 nodes per trie; other subsets are sampled",
